@@ -117,6 +117,7 @@ STD_ENUMS = {
     "Option": [("None", 0), ("Some", 1)],
     "Result": [("Ok", 0), ("Err", 1)],
     "ControlFlow": [("Continue", 0), ("Break", 1)],
+    "Entry": [("Occupied", 0), ("Vacant", 1)],
 }
 
 
@@ -1380,6 +1381,13 @@ def m_identity(engine, st, fr, callee, args, ops):
 def m_try_branch(engine, st, fr, callee, args, ops):
     v = args[0]
     alts = []
+    if callee.startswith("<Option<") or callee.startswith("<std::option::Option<"):
+        for c, n in _discr_fork(engine, st, v, ["None", "Some"]):
+            if n == "Some":
+                alts.append((c, Adt("ControlFlow", "Continue", [_payload(engine, v, "Some")])))
+            else:
+                alts.append((c, Adt("ControlFlow", "Break", [Adt("Option", "None", [])])))
+        return alts[0][1] if len(alts) == 1 and alts[0][0] is True else Fork(alts)
     for c, n in _discr_fork(engine, st, v, ["Ok", "Err"]):
         if n == "Ok":
             alts.append((c, Adt("ControlFlow", "Continue", [_payload(engine, v, "Ok")])))
@@ -1390,6 +1398,8 @@ def m_try_branch(engine, st, fr, callee, args, ops):
 
 def m_from_residual(engine, st, fr, callee, args, ops):
     v = args[0]
+    if callee.startswith("<Option<") or callee.startswith("<std::option::Option<"):
+        return Adt("Option", "None", [])
     if isinstance(v, Adt) and v.variant == "Err":
         inner = v.fields[0]
         # `From::from` on the error is identity for same-typed errors; conversions are modelled by the caller
